@@ -46,13 +46,18 @@ func (p *PKCS7PaddingReader) Read(buf []byte) (int, error) {
 	var n, off = 0, 0
 	var err error
 	if !p.eof {
-		// 读取文件
-		n, err = p.fIn.Read(buf)
-		if err != nil && !errors.Is(err, io.EOF) {
-			// 错误返回
-			return 0, err
+		// 读取文件: a short read is not the end of the input, keep reading until
+		// the buffer is full, the input ends or it fails
+		for n < len(buf) && err == nil {
+			var m int
+			m, err = p.fIn.Read(buf[n:])
+			n += m
 		}
 		p.readed += int64(n)
+		if err != nil && !errors.Is(err, io.EOF) {
+			// 错误返回
+			return n, err
+		}
 		if errors.Is(err, io.EOF) {
 			// 标志文件结束
 			p.eof = true
@@ -61,12 +66,12 @@ func (p *PKCS7PaddingReader) Read(buf []byte) (int, error) {
 			// 长度足够直接返回
 			return n, nil
 		}
-		// 文件长度已经不足，根据已经已经读取的长度创建Padding
-		p.newPadding()
 		// 长度不足向Padding中索要
 		off = n
 	}
 
+	// 文件已经结束，根据已经已经读取的长度创建Padding
+	p.newPadding()
 	if !p.eop {
 		// 读取流
 		var n2 = 0
